@@ -16,7 +16,7 @@ import asyncio
 import collections
 
 from harness import vclock
-from harness.core import Failure, Prop, load_known
+from harness.core import Failure, Prop
 
 T0 = 1_700_000_000_000           # ms; "now" of most cases starts here
 HOUR = 3_600_000
@@ -191,7 +191,6 @@ class C18(Prop):
         if self.min_age is None:
             self.min_age = HOUR                # the property's "older than one hour"
         self.old_limit = int(system_date.OLD_TIME_LIMIT) * 1000
-        self.known_race = next((f for f in load_known(self.ID) if f.get('id') == 'C18-remove-overlap-stale-cache'), None)
         self.view_level = core_api.ACCESS_LEVEL_VIEWONLY
         self.admin_level = core_api.ACCESS_LEVEL_ADMIN
 
@@ -297,8 +296,8 @@ class C18(Prop):
                      ['hbyts', 'pi', 2, [t2, t3, t1 - 1, T0]],
                      ['begin', 'a', ['hbyts', 'pi', 2, [t3 + 6, t3 + 7]]], ['tick', 1000], ['end'],
                      ['hbyts', 'pi', 1000, [t3 + 6, t3 + 7]]]},
-            # a by-timestamp query that runs while a removal waits for the persistence layer
-            # (known finding C18-remove-overlap-stale-cache on the code as it is)
+            # a by-timestamp query that runs while a removal waits for the persistence layer: the removal must invalidate
+            # the cache again once it has executed (fixed d4ebdd9, C18-remove-overlap-stale-cache)
             {'driver': 'json', 'base': T0, 'intervals': {'pb': 0, 'pi': 0, 'pn': 0}, 'retention': {},
              'seeds': [['pn', t1, 168]],
              'ops': [['begin', 'b', ['del', 30, 'pn', 0, {'from': '0', 'to': f'{T0}'}]],
@@ -877,11 +876,11 @@ class C18(Prop):
             return 'end'
         raise ValueError(op)
 
-    def _model(self, case, driver, variant=1):
-        """variant: 1 = the code as it is (with the by-timestamp repair); 3 = with the candidate repair of
-        remove_samples (cache dropped again after the persistence call)."""
+    def _model(self, case, driver):
+        """Model proper: flags 3 = by-timestamp answer in request order (fcb4d90) + the cache invalidated again after
+        the awaited removal (d4ebdd9)."""
         base = case['base']
-        rep = driver.ask(f'begin {variant} {self.min_age} {self.old_limit} {API_DEFAULT_LIMIT} {API_MAX_LIMIT} '
+        rep = driver.ask(f'begin 3 {self.min_age} {self.old_limit} {API_DEFAULT_LIMIT} {API_MAX_LIMIT} '
                          f'{self.view_level} {self.admin_level}')
         assert rep == 'ok', rep
         for name, (pid, tag) in PORTS.items():
@@ -1231,22 +1230,9 @@ class C18(Prop):
         nops = len(events) - len(PORTS)
         real_c = [self._relax(r, amb[i]) for i, r in enumerate(real)]
         model_c = [self._relax(m, amb[i]) for i, m in enumerate(model)]
-        if real_c != model_c and any(t.startswith('overlapped-removal') for t in tags):
-            # the code may carry the candidate repair of remove_samples (cache dropped again after the persistence call)
-            model3, _ = self._model(case, driver, variant=3)
-            model3_c = [self._relax(m, amb[i]) for i, m in enumerate(model3)]
-            if real_c == model3_c:
-                model_c = model3_c
-                tags.add('remove-invalidates-after')
         fail = None
         if ofail is not None:
             fail = Failure('property', ofail, real=real_c, model=model_c)
-            if (self.known_race is not None and self.known_match(self.known_race, case, fail)
-                    and case.get('ops') != self.known_race.get('example', {}).get('ops')):
-                # one more instance of the recorded finding: counted, not reported again (its witness in the corpus is
-                # what prints KNOWN-FINDING); keeps the per-worker failure budget for anything else
-                tags.add('known-remove-overlap-race-instance')
-                fail = None
         elif real_c != model_c:
             k = next(i for i in range(len(model_c)) if real_c[i] != model_c[i])
             what = events[k] if k < nops else f'final content of port {list(PORTS)[k - nops]}'
@@ -1261,39 +1247,7 @@ class C18(Prop):
         return fail, {'tags': sorted(tags), 'key': key, 'observed': real_c if len(repr(real_c)) < 20000 else 'long'}
 
     def known_match(self, finding, case, failure):
-        """C18-remove-overlap-stale-cache: a removal suspended BEFORE its persistence call executes (dicts already
-        popped), a by-timestamp query inside that window, and afterwards a by-timestamp answer that still shows a
-        removed sample."""
-        if finding.get('id') != 'C18-remove-overlap-stale-cache' or failure.kind != 'property':
-            return False
-        import re
-        m = re.match(r'op (\d+) ', failure.detail)
-        if not m:
-            return False
-        k = int(m.group(1))
-        ev = self._events(case)
-        if k >= len(ev):
-            return False
-        bad = ev[k]
-        is_byts = lambda o: (o[0] == 'get' and 'timestamps' in o[4]) or o[0] == 'hbyts'   # noqa: E731
-        if not is_byts(bad):
-            return False
-        # a removal suspended in mode 'b' that ended before the failing query, with a by-timestamp query inside
-        i = 0
-        while i < k:
-            o = ev[i]
-            if o[0] == 'begin' and o[1] == 'b' and o[2][0] in ('del', 'hremove'):
-                j = i + 1
-                inside = False
-                while j < len(ev) and ev[j][0] != 'end':
-                    inside = inside or is_byts(ev[j])
-                    j += 1
-                if inside and j < k:
-                    return True
-                i = j
-            i += 1
-        return False
-
+        return False          # no recorded-but-unrepaired finding: every violation is reported
 
 
 PROP = C18
